@@ -243,6 +243,7 @@ def run(prog: Program, rep, tier="quick"):
     rep.floor("R05.1", 3)
     rep.floor("R05.2", 5)
     r05_8(prog, rep)
+    r05_9(prog, rep)
 
 
 def r05_7(prog: Program, rep):
@@ -323,3 +324,35 @@ def r05_8(prog: Program, rep):
            ok_a or ok_b, "neither does the response reader recognise `shallow-info` and read up to its delimiter, nor does the request writer read the "
            "shallow updates when it sent shallow lines without deepening: the section is taken for `packfile`, zero bytes of pack data are read and "
            "the fetch reports success - every plain fetch into a depth-limited clone from a C git server", g.nodes[sb[0]].line)
+
+
+def r05_9(prog: Program, rep):
+    """A `have` from a shallow client promises the commit, not its ancestry.  find_missing_objects therefore lets the client's own
+    shallow lines (graph_walker.client_shallow) take part in the decision: either they are one of the reasons for which the common
+    commits are discarded (`haves = []`), or they bound the have-side walk (shallow=/shallows= of the finder / parents provider)."""
+    rep.rule("R05.9", "the client's shallow lines bound what a `have` promises (haves discarded, or the have-side walk cut there)")
+    f = prog.func("dulwich/repo.py", "BaseRepo.find_missing_objects")
+    derived = {"client_shallow"}
+    changed = True
+    while changed:
+        changed = False
+        for x in ast.walk(f.node):
+            if isinstance(x, (ast.Assign, ast.AnnAssign)) and x.value is not None:
+                tg = x.targets if isinstance(x, ast.Assign) else [x.target]
+                if any(d in norm(x.value) for d in derived):
+                    for t in tg:
+                        if isinstance(t, ast.Name) and t.id not in derived:
+                            derived.add(t.id)
+                            changed = True
+    clear = [x for x in ast.walk(f.node) if isinstance(x, ast.If) and any(
+        isinstance(s_, ast.Assign) and isinstance(s_.targets[0], ast.Name) and s_.targets[0].id == "haves" and isinstance(s_.value, (ast.List, ast.Tuple, ast.Call))
+        and not getattr(s_.value, "elts", None) and not getattr(s_.value, "args", None) for s_ in x.body)]
+    if not clear:
+        raise AnalysisError("find_missing_objects: the branch that discards the haves of a shallow request not found")
+    in_test = any(d in norm(c.test) for c in clear for d in derived)
+    in_kw = any(isinstance(x, ast.Call) and callee_name(x) in ("MissingObjectFinder", "ParentsProvider") and any(
+        k.arg in ("shallow", "shallows") and any(d in norm(k.value) for d in derived) for k in x.keywords) for x in ast.walk(f.node))
+    rep.ob("R05.9", "dulwich/repo.py", f.qual, "the client's shallow set takes part in discarding the haves (or bounds the have-side walk)", in_test or in_kw,
+           "only a NEW boundary or an unshallow makes the server distrust the haves: with a deepen that creates no boundary, `have C` from a client "
+           "whose shallow commit is C is taken as 'has C and all its ancestors' and the wanted history is pruned at commits the client lacks",
+           clear[0].lineno)
